@@ -174,6 +174,15 @@ def run_graph(case):
         doc0 = model.to_json()
     except Exception as exc:
         return {"behaviour": ["to_json_raises"], "violations": [{"clause": "to_json_raises", "key": key0, "detail": repr(exc)}]}
+    if case.get("loaded"):
+        # the explored object is the model as it comes back from storage: fit() has not primed anything on this object
+        # (a fitted object has already predicted its whole baseline once); simplest-first operations come first
+        try:
+            model = type(model).from_json(doc0)
+            doc0 = model.to_json()
+            key0 = dict(key0, loaded=True)
+        except Exception as exc:
+            return {"behaviour": ["load_raises"], "violations": [{"clause": "roundtrip_raises", "key": key0, "detail": repr(exc)}]}
     sets = REPORTING if case["tier"] == "thorough" else REPORTING[:4] if family == "caltrack" else REPORTING
     alphabet, data_objs, skipped = [], {}, []
     for name, start, ndays in sets:
@@ -453,6 +462,8 @@ def cases(tier):
         out.append({"part": "frames", "family": f, "tier": tier})
     for f in fams:
         out.append({"part": "pframes", "family": f, "tier": tier})
+    for f in fams:
+        out.append({"part": "graph", "family": f, "days": 365, "depth": 2, "tier": tier, "loaded": True})
     for f in fams + VARIANTS:
         for days in ((365, 330) if ((tier == "thorough" and f in fams) or f in ("hourly",)) else (365,)):
             out.append({"part": "graph", "family": f, "days": days, "depth": 3 if tier == "thorough" and f != "caltrack" else 2, "tier": tier})
